@@ -214,6 +214,19 @@ func checkIndexGate(p *Program, r *Result) {
 func checkMetadataCallback(p *Program, r *Result) {
 	// indexed
 	if fn := p.lookupFunc(pkgMcap, "indexedMessageIterator.NextInto"); fn != nil {
+		// the walk may live in an unexported helper of NextInto: judge the function that indexes it.metadataIndexes
+		for _, rf := range regionOf(p, fn, 3) {
+			found := false
+			for _, in := range instrsOf(rf) {
+				if ia, ok := in.(*ssa.IndexAddr); ok && loadOfField(ia.X, "indexedMessageIterator", "metadataIndexes") {
+					found = true
+				}
+			}
+			if found {
+				fn = rf
+				break
+			}
+		}
 		fname := funcName(fn)
 		var cbCalls []ssa.CallInstruction
 		for _, ci := range callsIn(fn, func(ci ssa.CallInstruction) bool {
